@@ -90,7 +90,16 @@ def run(ctx):
            ("QLabel", "font.bold: srcB.checked"), ("QLabel", "font.bold: true"), ("QComboBox", "model: [srcS.text]"), ("QComboBox", "model: [\"a\"]"), ("QTableView", "model: [\"a\"]"),
            ("QTableView", "horizontalHeader.visible: srcB.checked"), ("QTableView", "horizontalHeader.visible: false"), ("QTreeView", "header.font.bold: srcB.checked"),
            ("QLabel", "QLayout.rowStretch: srcI.value"), ("QLabel", "QLayout.rowStretch: 1"), ("QLabel", "QLayout.row: 1"), ("QPushButton", "onClicked: srcS.clear()"),
-           ("QPushButton", "onFooBar: srcS.clear()"), ("QLabel", "fooBar: 1"), ("QLabel", "actions: []"), ("QWidget", "sizePolicy.horizontalPolicy: QSizePolicy.Expanding")]
+           ("QPushButton", "onFooBar: srcS.clear()"), ("QLabel", "fooBar: 1"), ("QLabel", "actions: []"), ("QWidget", "sizePolicy.horizontalPolicy: QSizePolicy.Expanding"),
+           # nested binding maps of every depth and kind: palette -> colour group -> brush -> member (the colour group is a map that is NOT one of the gadget kinds)
+           ("QLabel", "palette.active.window.style: srcB.checked ? Qt.Dense4Pattern : Qt.SolidPattern"), ("QLabel", "palette.active.window.style: Qt.Dense4Pattern"),
+           ("QLabel", "palette.window.style: srcB.checked ? Qt.Dense4Pattern : Qt.SolidPattern"), ("QLabel", "palette.disabled.text.color: srcS.text"), ("QLabel", "palette.inactive.base: srcS.text"),
+           ("QLabel", "palette.inactive.base: \"red\""), ("QLabel", "palette { active { window { color: srcS.text } } }"), ("QLabel", "palette { disabled { text: \"blue\"; base: srcS.text } }"),
+           ("QLabel", "palette.window: srcS.text"), ("QLabel", "palette.window: \"#102030\""), ("QLabel", "font.family: srcS.text"), ("QLabel", "font { bold: true; family: srcS.text }"),
+           ("QLabel", "locale.fooBar: srcS.text"), ("QLabel", "locale.fooBar: 1"), ("QLabel", "cursor.shape: srcI.value"), ("QPushButton", "icon.name: srcS.text"), ("QPushButton", "icon.name: \"go\""),
+           ("QPushButton", "icon { normalOff: srcS.text }"), ("QLabel", "minimumSize.width: srcI.value"), ("QLabel", "geometry.width: srcI.value + 1"),
+           ("QTableView", "horizontalHeader.font.bold: srcB.checked"), ("QTableView", "horizontalHeader.palette.active.window.color: srcS.text"),
+           ("QTableView", "horizontalHeader.palette.window: \"red\"")]
     for cls, b in one:
         singles.append("import qmluic.QtWidgets\nQWidget {\n    QLineEdit { id: srcS }\n    QCheckBox { id: srcB }\n    QSpinBox { id: srcI }\n    QVBoxLayout {\n        %s {\n            %s\n        }\n    }\n}\n" % (cls, b))
     for b in ("text: srcS.text", "separator: srcB.checked", "separator: true", "checkable: srcB.checked", "onTriggered: srcS.clear()"):
